@@ -1,3 +1,10 @@
 Require Extraction. Require Import ExtrOcamlBasic.
-From GV Require Import TripWireModel.
-Extraction "tripwire_model.ml" TripWireModel.run_case.
+From Coq Require Import List ZArith.
+From GV Require Import Sched Enum TripWireModel.
+Definition enum_case (cfg : list Z) (progs : list (list (list Z))) (depth budget : Z) :=
+  let a := Z.to_nat (nth 0 cfg 0%Z) in
+  let b := Z.to_nat (nth 1 cfg 0%Z) in
+  let c := Z.to_nat (nth 2 cfg 0%Z) in
+  let P := mkP false false tw_store_mo tw_load_mo a b c (length progs) in
+  enum_case_gen glob loc (tstep P) (init (map decode_prog progs)) depth budget.
+Extraction "tripwire_model.ml" TripWireModel.run_case enum_case.
